@@ -53,6 +53,14 @@ def commit (c : CascadeCfg α) (raw : List (X α)) (s : OutState α) : OutState 
   let filled := if c.lockPrev then fill last raw else raw
   { value := filled.map (post c), previous := last }
 
+/-- row-by-row processing: one `defuzzify` call per row, threading the state -/
+def commitRows (c : CascadeCfg α) : List (X α) → OutState α → List (X α) × OutState α
+  | [], s => ([], s)
+  | x :: xs, s =>
+    let r := commit c [x] s
+    let rest := commitRows c xs r
+    (r.value ++ rest.1, rest.2)
+
 /-- `OutputVariable.defuzzify`: `raw = none` models a defuzzifier (or missing defuzzifier) that raises -/
 def defuzzify (c : CascadeCfg α) (raw : Option (List (X α))) (s : OutState α) : OutState α × Bool :=
   if !c.enabled then (s, false)
